@@ -317,6 +317,28 @@ def resolve_script(seed):
     return None
 
 
+def conv_script(seed):
+    """every vnaconv function once with a separate and once with an aliased
+    output.  They return nothing, so an allocation that fails inside one of
+    them can only be tolerated: the result must be the fault-free one."""
+    import build
+    rng = np.random.default_rng([seed, 1204])
+    s = Script()
+    for name, kind in build.conv_functions():
+        n = 2 if kind in ("K22", "K22Z", "K2I") else 3
+        m = np.eye(n) * 0.3 + 0.25 * (rng.standard_normal((n, n)) +
+                                      1j * rng.standard_normal((n, n)))
+        z0 = [complex(50 + 10 * i, 5 * i) for i in range(n)]
+        for alias in (0, 1):
+            if alias and kind in ("K2I", "KNI"):
+                continue
+            toks = ["conv", name, n, alias] + [cx(v) for v in m.reshape(-1)]
+            if kind not in ("K22", "KN"):
+                toks += [cx(v) for v in z0]
+            s.op(*toks)
+    return s.text()
+
+
 def generated_scripts(seed, n, nops=50):
     """call histories from the C03 generator (valid / boundary / invalid
     arguments over every object kind, deep calibration states, files):
@@ -341,6 +363,7 @@ def all_scripts(seed):
         ("alias", alias_script(seed)),
         ("property", property_script(seed)),
         ("vnadata", vnadata_script(seed)),
+        ("conv", conv_script(seed)),
         ("cal_t8_m", cal_script(seed, "T8", 2, 2, 2, "m", tag="t8")),
         ("cal_te10_merr", cal_script(seed, "TE10", 2, 2, 2, "m", m_error=True,
                                      tag="te10")),
